@@ -260,10 +260,13 @@ def finish (fuel : Nat) (g : G) (c : Ctx Db Env Err Pre L1) :
     let r := h.endHook out c.env c.work
     some (r.1, clear (c.withWork r.2))
 
-/-- `Evm::transact` -/
+/-- `Evm::transact` (since 25ebe790: the output of validation OR of the inner run goes through `end`) -/
 def transact (fuel : Nat) (c : Ctx Db Env Err Pre L1) : Option (Except Err (Out ER) × Ctx Db Env Err Pre L1) :=
   match preverifyInner h c with
-  | (.error e, c) => some (.error e, clear c)      -- `.inspect_err(|_| self.clear())?`
+  | (.error e, c) =>
+    -- a validation error is passed through `post_execution().end(ctx, Err(e))`, then `clear`
+    let r := h.endHook (.error e) c.env c.work
+    some (r.1, clear (c.withWork r.2))
   | (.ok g, c) => finish h fuel g c
 
 /-- `Evm::transact_preverified` -/
